@@ -7,7 +7,7 @@ import ast
 from typing import Dict, List, Optional, Set, Tuple
 
 from ..cfg import Flow, Node, build_cfg
-from ..core import (AnalysisError, FuncInfo, Index, Result, call_name, call_recv, const_str, dotted, iter_calls,
+from ..core import (seq, AnalysisError, FuncInfo, Index, Result, call_name, call_recv, const_str, dotted, iter_calls,
                     norm_stmt, src, walk_no_nested)
 from ..util import params, single_assignments, names_in
 
@@ -71,7 +71,7 @@ def check_c19(idx: Index, tier: str, res: Result) -> None:
                 wr.append(e)
                 e = e.args[0]
             return e, wr
-        loops = [n for n in fi.node.body if isinstance(n, ast.For) and src(base_iter(n.iter)[0]) in ("%s.keys()" % inp, inp, "%s.items()" % inp)]
+        loops = [n for n in fi.node.body if isinstance(n, ast.For) and src(base_iter(n.iter)[0]) in ("%s.keys()" % inp, inp, "%s.items()" % inp, "%s.values()" % inp)]
         if len(loops) != 1:
             raise AnalysisError("%s: outer loop over the steps not found" % name)
         # the compressed series are positional: their order is the order in which the steps are visited.  The log's own (insertion) order
@@ -88,7 +88,10 @@ def check_c19(idx: Index, tier: str, res: Result) -> None:
                   "series is permuted and every value is restored under another step" % (name, bad_order[1] if bad_order else ""),
                   key="INJECT/%s/step-order" % name)
         tgt = loops[0].target
-        stepvar = tgt.id if isinstance(tgt, ast.Name) else tgt.elts[0].id
+        if src(base_iter(loops[0].iter)[0]).endswith(".values()"):
+            stepvar = "<the step key is not even read>"
+        else:
+            stepvar = tgt.id if isinstance(tgt, ast.Name) else tgt.elts[0].id
         rets = [n for n in walk_no_nested(fi.node) if isinstance(n, ast.Return)]
         outs = {r.value.id for r in rets if isinstance(r.value, ast.Name)}
         # aliases of the output structure
@@ -180,7 +183,7 @@ def check_c19(idx: Index, tier: str, res: Result) -> None:
               src(written.get("state", ast.Constant(0)))[:60], "the session state is not serialised into the record", key="RECORD/FileAdapter/state-dumps")
     # both layers (record, embedded session state) are written and read with the same codec
     def codecs(fi: FuncInfo, names) -> List[str]:
-        return [(dotted(c.func.value) or "?") for c in sorted(iter_calls(fi.node), key=lambda c: (c.lineno, c.col_offset))
+        return [(dotted(c.func.value) or "?") for c in sorted(iter_calls(fi.node), key=seq)
                 if call_name(c) in names and isinstance(c.func, ast.Attribute)]
     wr = codecs(sv, ("dumps",))
     rd = codecs(ld, ("loads",))
@@ -262,7 +265,7 @@ def check_c19(idx: Index, tier: str, res: Result) -> None:
         fi = idx.func(SERVER, "BptkServer.%s" % hname)
         saves = [c for c in iter_calls(fi.node) if call_name(c) == "save_instance"]
         steps = [c for c in iter_calls(fi.node) if call_name(c) == "run_step"]
-        ok = bool(saves) and all(s.lineno > c.lineno for s in saves for c in steps)
+        ok = bool(saves) and all(seq(s) > seq(c) for s in saves for c in steps)
         res.check("WHOLE", "%s saves the instance after stepping" % hname, ok, fi.loc(), fi.qual, "save_instance(...)",
                   "%s does not persist the instance after the step(s)" % hname, key="WHOLE/%s/save-after-step" % hname)
 
@@ -310,7 +313,7 @@ def check_c20(idx: Index, tier: str, res: Result) -> None:
             if mode is None or not any(ch in mode for ch in "wax+"):
                 continue
             nwr += 1
-            ok = "w" in mode or "x" in mode
+            ok = "w" in mode or "x" in mode or any(call_name(x) in ("truncate", "ftruncate") for x in iter_calls(sv.node))
             res.check("ATOMIC", "the state file is opened truncating", ok, sv.loc(c), sv.qual, src(c)[:90],
                       "the state file is opened with mode %r, which keeps the previous content" % mode, key="ATOMIC/FileAdapter._save_instance/not-truncated")
         elif (call_recv(c) or "") == "os" and len(c.args) >= 2:
@@ -330,6 +333,12 @@ def check_c20(idx: Index, tier: str, res: Result) -> None:
 
     # every stepping request externalises the instance after the step: a step the client has seen is in the external state
     nstep = 0
+    # helpers of the server that externalise (one level): calling one of them counts as save_instance()
+    savers = {"save_instance"}
+    for fi in idx.all_funcs("BPTK_Py/server/"):
+        if fi.cls == "BptkServer" and not any(call_name(c) == "run_step" for c in iter_calls(fi.node)) and \
+                any(call_name(c) == "save_instance" for c in iter_calls(fi.node)) and not fi.node.name.endswith("_resource"):
+            savers.add(fi.node.name)
     for fi in idx.all_funcs("BPTK_Py/server/"):
         if fi.cls != "BptkServer" or not any(call_name(c) == "run_step" for c in iter_calls(fi.node)):
             continue
@@ -342,7 +351,7 @@ def check_c20(idx: Index, tier: str, res: Result) -> None:
             if node.kind == "stmt" and label != "exc":
                 if has_call(node.ast, "run_step"):
                     return ["stepped"]
-                if has_call(node.ast, "save_instance"):
+                if any(has_call(node.ast, sv_) for sv_ in savers):
                     return ["clean"]
             if node.kind == "test" and "_external_state_adapter" in src(node.ast) and label == "false" and "!=" in src(node.ast).replace("is not", "!="):
                 return ["clean"]         # no external state configured: nothing to externalise
@@ -396,8 +405,43 @@ def check_c20(idx: Index, tier: str, res: Result) -> None:
                       key="NULL/%s/load_state()[i].instance_id" % fi.qual)
     res.floor("consumers of load_state()", ncons, 2)
     ens = idx.func(SERVER, "BptkServer._ensure_instance_exists")
-    ok = any(isinstance(g, ast.If) and "None" in src(g.test) and "instance" in src(g.test) for g in walk_no_nested(ens.node))
-    res.check("NULL", "_ensure_instance_exists checks the loaded instance", ok, ens.loc(), ens.qual, "if instance == None", "lazy restore dereferences a None",
+    # nullability dataflow: the value of load_instance() may be None; every attribute access on it is dominated by a non-None test
+    from ..util import implied
+    loaded = [n.targets[0].id for n in walk_no_nested(ens.node) if isinstance(n, ast.Assign) and isinstance(n.targets[0], ast.Name)
+              and any(call_name(c) == "load_instance" for c in iter_calls(n.value))]
+    if len(loaded) != 1:
+        raise AnalysisError("_ensure_instance_exists: the variable holding load_instance() not found")
+    L = loaded[0]
+    flags: Dict[str, bool] = {}       # boolean local -> True when "flag true" means L is not None
+    for n in walk_no_nested(ens.node):
+        if isinstance(n, ast.Assign) and isinstance(n.targets[0], ast.Name) and isinstance(n.value, ast.Compare) and len(n.value.ops) == 1 \
+                and isinstance(n.value.left, ast.Name) and n.value.left.id == L and isinstance(n.value.comparators[0], ast.Constant) \
+                and n.value.comparators[0].value is None and isinstance(n.value.ops[0], (ast.Is, ast.IsNot)):
+            flags[n.targets[0].id] = isinstance(n.value.ops[0], ast.IsNot)
+    ecfg = build_cfg(ens.node, ens.qual)
+    derefs = []
+
+    def tr_null(node: Node, fact, label):
+        a = node.ast
+        if a is not None and node.kind in ("stmt", "test") and fact == "maybe":
+            if any(isinstance(x, ast.Attribute) and isinstance(x.value, ast.Name) and x.value.id == L for x in ast.walk(a)):
+                derefs.append(node)
+        if node.kind == "stmt" and label != "exc" and isinstance(a, ast.Assign) and any(isinstance(t, ast.Name) and t.id == L for t in a.targets):
+            return ["maybe"]
+        if node.kind == "test" and label in ("true", "false"):
+            for atom, truth in implied(a, label == "true"):
+                if isinstance(atom, ast.Compare) and len(atom.ops) == 1 and isinstance(atom.ops[0], ast.Is) and isinstance(atom.left, ast.Name) \
+                        and atom.left.id == L and isinstance(atom.comparators[0], ast.Constant) and atom.comparators[0].value is None:
+                    fact = "none" if truth else "nonnull"
+                elif isinstance(atom, ast.Name) and atom.id in flags:
+                    fact = "nonnull" if truth == flags[atom.id] else "none"
+                elif isinstance(atom, ast.Name) and atom.id == L:
+                    fact = "nonnull" if truth else "none"
+        return [fact]
+    Flow(ecfg, ["unset"], tr_null)
+    ok = not derefs
+    res.check("NULL", "_ensure_instance_exists checks the loaded instance", ok, ens.loc(derefs[0].ast) if derefs else ens.loc(), ens.qual,
+              derefs[0].text() if derefs else "if instance is None", "lazy restore dereferences the value of load_instance() on a path on which it can be None",
               key="NULL/_ensure_instance_exists")
 
     # ---- (3) replay on restore -----------------------------------------------------------------------------------------------
